@@ -1,7 +1,7 @@
 # Table read by tools/gen_manifest.py
 TRUSTED = ("Trusted: rustc nightly's type checker, trait resolution and MIR construction (-Zmir-opt-level=0) as a "
-           "faithful model of the compiled program; std/alloc contracts; the reviewed tables under /verif/gcv/props "
-           "and /verif/spec. Decides the structural clauses listed in DESIGN.md for this property; the clauses "
+           "faithful model of the compiled program; std/alloc contracts; the reviewed tables in /verif/gcv/props "
+           "and the oracle predicates in /verif/gcv/spec.py and spec_protocol.py. Decides the structural clauses listed in DESIGN.md for this property; the clauses "
            "listed there as 'not decided' (and in the evidence file's not_decided key) are outside static reach.")
 
 ENGINES = [
